@@ -457,7 +457,17 @@ def canon_wildcard_order(ans, wit):
         return lineage_canon(ans)
     if isinstance(ans, dict) and "sql" in ans:
         def sel(m):
-            items = m.group(1).split(", ")
+            # a star with an exclusion list next to the excluded columns themselves (`dept, * EXCLUDE (dept)`) is the star: where the
+            # excluded column lands among the select items is the order this leak is about
+            body = m.group(1)
+            excluded = set()
+
+            def star(mm):
+                excluded.update((mm.group(1) or "") + x.strip() for x in mm.group(3).split(","))
+                excluded.update(x.strip() for x in mm.group(3).split(","))
+                return (mm.group(1) or "") + "*"
+            body = re.sub(r"((?:[\w\"`]+\.)?)\* (EXCLUDE|EXCEPT) \(([^)]*)\)", star, body)
+            items = [i for i in body.split(", ") if i not in excluded]
             stars = {i[:-1] for i in items if i.endswith(".*")}     # `t2.*` absorbs `t2.u2` when they are adjacent (translate_wildcards)
             items = [i for i in items if not any(i.startswith(q) and i != q + "*" and re.fullmatch(r"[\w.\"`]+", i) for q in stars)]
             if "*" in items:
